@@ -346,6 +346,30 @@ func checkC18(p *Program, r *Report) {
 				}
 				r.Check(guard, "C18.R3", funcName(fn)+"|script args guarded", p.Pos(instrPos(sl)), "taken only when at least one argument is present", "flag.Args()[1:] can be evaluated with no arguments (slice bounds panic)")
 				// with -e there is no file name: every positional argument belongs to the script
+				// the positional arguments are looked at only after the command line was parsed; the script file is the first of them
+				parsed := false
+				for _, fb := range fn.Blocks {
+					for _, fin := range fb.Instrs {
+						if pc, ok := fin.(*ssa.Call); ok {
+							if po := calleeObj(pc); po != nil && isFuncNamed(po, "flag", "", "Parse") && instrDominates(pc, sl) {
+								parsed = true
+							}
+						}
+					}
+				}
+				n3++
+				r.Check(parsed, "C18.R3", funcName(fn)+"|flags parsed first", p.Pos(instrPos(sl)), "flag.Parse() comes before the positional arguments are read", "the positional arguments are read without (or before) flag.Parse(): the command line is never interpreted")
+				for _, fb := range fn.Blocks {
+					for _, fin := range fb.Instrs {
+						if ac, ok := fin.(*ssa.Call); ok {
+							if ao := calleeObj(ac); ao != nil && isFuncNamed(ao, "flag", "", "Arg") {
+								k0, _ := ac.Call.Args[0].(*ssa.Const)
+								n3++
+								r.Check(k0 != nil && k0.Int64() == 0, "C18.R3", funcName(fn)+"|script file is the first argument", p.Pos(ac.Pos()), "flag.Arg(0)", "the script file is not taken from the first positional argument")
+							}
+						}
+					}
+				}
 				eg := executeFlagGlobal(sp)
 				r.Check(eg != nil, "C18.R3", "main|-e flag", "anko.go", "the command registers the -e flag", "the command does not register a -e flag: source text cannot be given on the command line")
 				if eg != nil {
